@@ -1131,8 +1131,8 @@ the hypotheses of all lemmas above (`exp x := 1 + x` etc. — the lemmas assume 
 
 namespace Example
 def Fq : Fn ℚ :=
-  { exp := fun x => 1 + x, log := id, log10 := id, pow := fun x _ => x, round0 := id,
-    round2 := id, round3 := id, round4 := id, pyRound2 := id }
+  { exp := fun x => 1 + x, log := id, log10 := id, pow := fun x y => if y = 2 then x * x else x,
+    round0 := id, round2 := id, round3 := id, round4 := id, pyRound2 := id }
 def cq (zs : ℚ) : Comp ℚ :=
   { dz := 0.1, dzsum := zs, zMid := zs - 0.05, thS := 0.5, thFC := 0.3, thWP := 0.1,
     thDry := 0.05, tau := 0.5, ksat := 500, pen := 100, aCR := 0, bCR := 0, layer := 1 }
